@@ -32,3 +32,11 @@ impl TryIntoArrShim for [u8] {
         ensures (r is Ok) == (self@.len() == N), r is Ok ==> r->Ok_0@ == self@
     { unimplemented!() }
 }
+//@trusted T2 bytes::BytesMut derefs to the byte slice of its content
+impl core::ops::Deref for BytesMut {
+    type Target = [u8];
+    #[verifier::external_body]
+    fn deref(&self) -> (r: &[u8])
+        ensures r@ == self@
+    { unimplemented!() }
+}
